@@ -367,11 +367,7 @@ class Spec(core.PropSpec):
             again = run_epoch(plan["betas"][0], plan["clobbers"][3] or ["np", 4242])
         except Exception as e:
             from .simdata import InjectedReadError
-            chain, cur = [], e
-            while cur is not None and len(chain) < 8:
-                chain.append(cur)
-                cur = cur.__cause__ or cur.__context__
-            if stack.get("hook_fault") and (any(isinstance(c, InjectedReadError) for c in chain) or "injected: resource" in str(e)):
+            if stack.get("hook_fault") and (core.caused_by(e, InjectedReadError) or "injected: resource" in str(e)):
                 # the loader died loudly with the injected error: an epoch lost to the environment, nothing silently wrong
                 out.count("fault:worker_hook_failure_loud")
                 out.ev("hook-failure-loud", len(sessions))
